@@ -76,3 +76,8 @@ def run(ctx, prop):
         hits = c10.consumed_then_handed_on(F)
         ctx.ob("C10.positive-control.iterator-past-rejected-item", "controls/pos", "controls/pos/src/lib.rs", any("scan_and_hand_on" in h[0] for h in hits), "positive-control",
                "the rule fires on the scan loop of the control crate that returns its iterator after a rejecting break: %s" % hits, nontrivial=False)
+    if prop in ("C05", "C17"):
+        import widths
+        w1, w2 = widths.scan(F)
+        ctx.ob("%s.positive-control.lossy-narrowing" % prop, "controls/pos", "controls/pos/src/lib.rs", any("narrow_len" in h[0] for h in w1) and any("narrow_sum" in h[0] for h in w2),
+               "positive-control", "the width rules fire on `len as u32 as u64` and `(a + 1) as usize` in the control crate: %s / %s" % (w1[:2], w2[:2]), nontrivial=False)
